@@ -329,7 +329,11 @@ fn run_edge(rng: &mut Rng, n: usize) {
       continue;
     }
     // crystal lengths around the root: the root is above the length by 0.05 .. 1.5 um, or below it
-    for (j, d) in [0.05e-6, 0.3e-6, 0.5e-6, 0.7e-6, 0.95e-6, 1.5e-6, -0.5e-6].iter().enumerate() {
+    // (the exact period exceeds the length by up to 1 um: the seed window of finding F4b; by more than 1 um: an error is due)
+    for (j, d) in [0.05e-6, 0.3e-6, 0.5e-6, 0.7e-6, 0.95e-6, 1.5e-6, -0.5e-6, 5e-6, 1e-4].iter().enumerate() {
+      if root - d < 0.8e-3 {
+        continue;
+      }
       let mut s2 = Setup { cs: s.cs.clone(), signal: s.signal.clone(), pump: s.pump.clone(), pp: PeriodicPoling::Off, input: s.input.clone() };
       let l = root - d;
       s2.cs.length = l * M;
